@@ -355,7 +355,7 @@ def history_cases(ck, rng, thorough):
             for seq in itertools.product(range(N), repeat=L):
                 yield {"kind": "history", "gen": "exhaustive-seq", "decls": decls, "ops": [[f, 0] for f in seq]}
     # (3) random longer histories on random DAGs with 5..7 functions
-    for _ in range(1500 if thorough else 150):
+    for _ in range(6000 if thorough else 150):
         N = int(rng.integers(5, 8))
         decls = []
         for h in range(N):
@@ -391,7 +391,7 @@ def process_histories(ck, cases, pool=None):
         N = len(case["decls"])
         dep_called = any(case["decls"][f] for f, _ in case["ops"])
         ck.case(case, nontrivial=(dep_called and len(case["ops"]) >= 2),
-                sample=(ck.evaluations % 4001 == 0))
+                sample=(ck.evaluations % 4001 == 0 or case["gen"] == "corpus:diamond_refit.json"))
         ck.count("history:" + case["gen"])
         ck.count(f"history:N={N}")
         if len(st["log"]) > len(case["ops"]):
@@ -481,7 +481,8 @@ def process_conddist(ck):
     answers = ck.driver.run(lines)
     for case, (st, decls, ops), ans in zip(cases, res, answers):
         full = dict(case, decls=decls, ops=ops)
-        ck.case(full, nontrivial=any(decls))
+        ck.case(full, nontrivial=any(decls), sample=(case["rounds"] == 2 and case["graph"] == "mu<-sigma"
+                                                      and case["dict_order"] == ["mu", "sigma"]))
         ck.count("history:conddist")
         for pred, detail in st["oracle"]:
             ck.fail({"entry": "ConditionalDistribution.fit", "predicate": pred}, full, detail)
@@ -879,7 +880,7 @@ def fit_oracle(case, impl):
                 continue
             nadm += 1
             fq = obj_impl(q)
-            if np.isfinite(fq) and fq * (1 + (OPT_RTOL if linear else 10 * OPT_RTOL)) + atol < fp:
+            if np.isfinite(fq) and fq * (1 + (OPT_RTOL if linear else 100 * OPT_RTOL)) + atol < fp:
                 if worst is None or fq < worst[0]:
                     worst = (fq, list(q))
     info["perturbations"] = nadm
@@ -954,7 +955,7 @@ def fit_oracle(case, impl):
     return bad, info
 
 
-OPT_RTOL = 1e-5  # relative slack on squared residuals granted to the optimisers (x10 for non-linear shapes: flat valleys)
+OPT_RTOL = 1e-5  # relative slack on squared residuals granted to the optimisers (x100 for non-linear shapes: flat valleys such as b/(1+c*x) ~ (b/c)/x)
 SLSQP_NONLINEAR_WHERE = "constraints declared (SLSQP path); shape non-linear in its parameters"
 WEIGHTS_WHERE = "weights callable with non-constant positive weights; shape linear in its parameters"
 
@@ -970,7 +971,9 @@ def process_fits(ck, cases):
     for case, impl, ans in zip(cases, impls, answers):
         bad, info = fit_oracle(case, impl)
         nontrivial = "popt" in impl and len(case["x"]) >= 3
-        ck.case({k: v for k, v in case.items()}, nontrivial=nontrivial, sample=(ck.evaluations % 211 == 0))
+        ck.case({k: v for k, v in case.items()}, nontrivial=nontrivial,
+                sample=(case.get("gen") == "random" and case["shape"] == "exp3" and case["bounds_mode"] == "active"
+                        and case["weights"] == "y"))
         ck.count("fit:shape=" + case["shape"])
         ck.count("fit:bounds=" + case.get("bounds_mode", "?"))
         ck.count("fit:weights=" + str(case["weights"]))
@@ -1035,7 +1038,7 @@ def process_fits(ck, cases):
 
 
 def fit_cases(rng, thorough):
-    reps = 6 if thorough else 1
+    reps = 20 if thorough else 1
     for _ in range(reps):
         for shape in LINEAR_SHAPES + NONLINEAR_SHAPES:
             for bm in ("none", "inactive", "active"):
